@@ -14,6 +14,7 @@ import (
 	"github.com/bradenaw/juniper/xsync"
 	"pgregory.net/rapid"
 
+	"verif/harness/sk"
 	"verif/harness/vk"
 )
 
@@ -614,10 +615,10 @@ func runFT[T comparable](p FPlan, val T) (vk.Outcome, error) {
 					ctx := context.Background()
 					cancel := func() {}
 					if wt.Timeout > 0 && !wt.CancelOnly {
-						ctx, cancel = context.WithTimeout(ctx, time.Duration(wt.Timeout)*time.Millisecond)
+						ctx, cancel = sk.WithTimeout(ctx, time.Duration(wt.Timeout)*time.Millisecond)
 					} else if wt.Timeout > 0 {
 						var c context.CancelFunc
-						ctx, c = context.WithCancel(ctx)
+						ctx, c = sk.WithCancel(ctx)
 						tm := time.AfterFunc(time.Duration(wt.Timeout)*time.Millisecond, c)
 						cancel = func() { tm.Stop(); c() }
 					}
